@@ -137,6 +137,7 @@ def law (_B : Backend) (op : String) (_args : List Sx) (impl : Sx) : Option Outc
   let strictEq := op.endsWith ":eq"
   match unOk impl with
   | some (.l [a, b]) =>
+    if op.endsWith ":lax-eq" then some { model := a, agree := a == b, rel := "law:equal" } else
     match (dec a : Option F), (dec b : Option F) with
     | some fa, some fb =>
       if strictEq then
